@@ -8,7 +8,12 @@ import Aiorpcx.C16.Wire
         out: `<outcome> <unread hex> <requested:returned,...|_> <sent hex;...|_>`
     `obj <proto> <host> <port> <auth> <chunk hex> ...`
         `next_message()` / `receive_data(chunk)` by hand: results of the successive calls.
-    `det <proto> <auth> <attempt> ...`   attempt = `x` (connect fails) | `<stream hex>`
+    `cc <proto> <host> <port> <auth> <stream hex> <sizes>/<default>`
+        the same reply stream met by `create_connection` (one remote address, the proxy's
+        address resolving to one entry): `_connect([a])` over `_connect_one(a)` over
+        `_handshake`; same output format, the outcome being what `create_connection` raises
+    `det <proto> <auth> <attempt> ...`   attempt = `x` (connect fails) | `s` (`socket.socket()`
+        raises) | `<stream hex>` | `p<stream hex>` (`getpeername()` raises afterwards)
         `_detect_proxy` verdict: `True` / `False` / `E:<Exception>`
     `con <outcome> ...`   outcome of `_connect_one` per remote address:
         `s` (a socket) | `e:<Exception>:<repr id>` (returned exception) | `x:<Exception>` (escaped)
@@ -41,10 +46,6 @@ def withCfg (p h port a : String) (f : Cfg → String) : String :=
     | .ok cfg => f cfg
   | _, _, _, _ => "bad-op"
 
-def parseAttempt (s : String) : Option Attempt :=
-  if s == "x" then some .connectFails
-  else (Hex.parseBytes s).map fun b => .talks b (fun _ => 1)
-
 def parseOutcome (s : String) : Option AddrOutcome :=
   match s.splitOn ":" with
   | ["s"] => some (.sock [])
@@ -62,6 +63,16 @@ def handle (line : String) : String :=
     | some st, some (l, d) =>
       withCfg p h port a fun cfg =>
         showRun (handshake (fun i => l.getD i d) (Client.init cfg) ⟨st, 0⟩)
+    | _, _ => "bad-op"
+  | ["cc", p, h, port, a, stream, sizes] =>
+    match Hex.parseBytes stream, parseSizes sizes with
+    | some st, some (l, d) =>
+      withCfg p h port a fun cfg =>
+        let o := fun i => l.getD i d
+        let r := handshake o (Client.init cfg) ⟨st, 0⟩
+        match createConnection1 (.ok cfg) [.talks st o] with
+        | .connected _ _ => showRun { r with outcome := none }
+        | .raised e => showRun { r with outcome := some e }
     | _, _ => "bad-op"
   | "obj" :: p :: h :: port :: a :: chunks =>
     match chunks.mapM Hex.parseBytes with
